@@ -71,6 +71,9 @@ def run_variant(var: dict) -> tuple[dict, bool, str]:
             rule = f"REPORT {var['prop']}-{var['rule']} "
             ok = cp.returncode == 1 and rule in out
             why = "" if ok else f"expected exit 1 with {rule.strip()}, got exit {cp.returncode}"
+        elif var["expect"] == "N":   # never a violation: silent or honestly undecided
+            ok = cp.returncode in (0, 2) and "VIOLATION" not in out
+            why = "" if ok else f"expected no violation (exit 0 or 2), got exit {cp.returncode}"
         elif var["expect"] == "U":
             ok = cp.returncode == 2 and "ANALYSIS-ERROR" in out and "VIOLATION" not in out
             why = "" if ok else f"expected exit 2 (undecided), got exit {cp.returncode}"
